@@ -87,8 +87,17 @@ Fixpoint lookup_from (env : enum_env) (opts : list str) (i : Z) (full : str) : o
               | None => if str_eqb (with_prefix env o) full then Some i else None
               end
   end.
+(* ... and the explicit zero option, if any, under its full name -> 0 (entered
+   first: a later option of the same name would overwrite it) *)
 Definition map_value (env : enum_env) (name : str) : option Z :=
-  lookup_from env (ee_options env) 1 (with_prefix env name).
+  match lookup_from env (ee_options env) 1 (with_prefix env name) with
+  | Some n => Some n
+  | None =>
+      match ee_zero env with
+      | Some z => if str_eqb (with_prefix env z) (with_prefix env name) then Some 0 else None
+      | None => None
+      end
+  end.
 Fixpoint map_values (env : enum_env) (names : list str) : outcome (list Z) :=
   match names with
   | [] => Ok []
